@@ -34,6 +34,9 @@ type Gen struct {
 	dicts int
 	// noQual marks paths the generator never references (reserved for Anon-only use)
 	noQual map[int]bool
+	// late: some list items are placeholders (empty statements) that a later "fill" op extends
+	late  bool
+	slots []int
 	// hostSalt prefixes fabricated hosts (fresh, never-seen paths per race-leg round)
 	hostSalt string
 }
